@@ -124,11 +124,41 @@ struct cfg_reader<std::monostate> {
 };
 template <class T, std::size_t N>
 struct cfg_reader<covfie::array::array<T, N>> {
-    static covfie::array::array<T, N> get(const uint8_t *&p)
+    // every way the class can be initialised is used: default construction and assignment,
+    // the N-value list, a C array, and - when all components are equal - the broadcast
+    // form with braces, array<T, N>{v}
+    using A = covfie::array::array<T, N>;
+    template <std::size_t... I>
+    static A from_list(const T *v, std::index_sequence<I...>)
     {
-        covfie::array::array<T, N> a;
+        return A{v[I]...};
+    }
+    static A get(const uint8_t *&p)
+    {
+        T v[N];
+        unsigned h = 0;
+        bool same = true;
+        for (std::size_t i = 0; i < N; ++i) {
+            h = h * 31u + p[0];
+            v[i] = get_scalar<T>(p);
+            if (std::memcmp(&v[i], &v[0], sizeof(T)) != 0)
+                same = false;
+        }
+        if constexpr (N > 1) {
+            if (same) {
+                A a{v[0]};
+                return a;
+            }
+            if (h % 3 == 1)
+                return from_list(v, std::make_index_sequence<N>{});
+            if (h % 3 == 2) {
+                A a(v);
+                return a;
+            }
+        }
+        A a;
         for (std::size_t i = 0; i < N; ++i)
-            a[i] = get_scalar<T>(p);
+            a[i] = v[i];
         return a;
     }
 };
